@@ -24,7 +24,7 @@ import (
 func init() {
 	fw.Register(&fw.Check{
 		ID: "C16", Level: "model_checking",
-		Rule: "controlled cooperative scheduler + DFS over schedules with iterative preemption bounding (0, 1, 2; thorough 3) on a source-instrumented build (import \"sync\" -> scheduler-aware shim; every statement touching the guarded fields of a mutex-bearing struct or a mutable package-level variable preceded by an access hook = scheduling point; every write to a struct field reached through a pointer, and every read of a field that some statement writes, reported to the happens-before monitor without a scheduling point (all packages but the scanner); the pinned schema library's own synchronisation (two RWMutexes, one Once, two sync.Pools - the pools as deterministic LIFO free lists, fresh per execution, Get / Put scheduling points with the Put -> Get happens-before edge) redirected to the same shim; generated VerifResetGlobals). H1: for each of the 7 generated collection types, every scenario of 2 writers x 1 reader with one operation each from {Set, SetToTop, Update, Set other key} x {Get, Len, Each, MarshalJSON} on keys forced to collide, from an empty or pre-filled collection: no data race (vector-clock happens-before monitor), no deadlock, the history is linearizable against a sequential ordered-map reference (brute force over the <= 3! orders consistent with real time), no lost update, every key once in the order; H2: 2-3 threads making the process's first calls to NewDirectiveType; H3: two whole parses (same / different / rejected documents) against package-level state; H4: one validated catalog whose first serialisation and reads happen in 2-3 threads at once (reference result from a second catalog built from the same text); plus a free-running pass of the same bodies under the Go race detector; non-trivial = schedule in which at least two threads touched the same object; distinct = distinct (scenario, schedule)",
+		Rule:   "controlled cooperative scheduler + DFS over schedules with iterative preemption bounding (0, 1, 2; thorough 3) on a source-instrumented build (import \"sync\" -> scheduler-aware shim; every statement touching the guarded fields of a mutex-bearing struct or a mutable package-level variable preceded by an access hook = scheduling point; every write to a struct field reached through a pointer, and every read of a field that some statement writes, reported to the happens-before monitor without a scheduling point (all packages but the scanner); the pinned schema library's own synchronisation (two RWMutexes, one Once, two sync.Pools - the pools as deterministic LIFO free lists, fresh per execution, Get / Put scheduling points with the Put -> Get happens-before edge) redirected to the same shim; generated VerifResetGlobals). H1: for each of the 7 generated collection types, every scenario of 2 writers x 1 reader with one operation each from {Set, SetToTop, Update, Set other key} x {Get, Len, Each, MarshalJSON} on keys forced to collide, from an empty or pre-filled collection: no data race (vector-clock happens-before monitor), no deadlock, the history is linearizable against a sequential ordered-map reference (brute force over the <= 3! orders consistent with real time), no lost update, every key once in the order; H2: 2-3 threads making the process's first calls to NewDirectiveType; H3: two whole parses (same / different / rejected documents) against package-level state; H4: one validated catalog whose first serialisation and reads happen in 2-3 threads at once (reference result from a second catalog built from the same text); plus a free-running pass of the same bodies under the Go race detector; non-trivial = schedule in which at least two threads touched the same object; distinct = distinct (scenario, schedule)",
 		Assume: []string{"weak-memory reorderings are not modelled: the happens-before monitor reports the race that would permit them", "the schema library's own synchronisation is covered only by the free-running race-detector pass"},
 		Run:    runC16, QuickCap: 10 * time.Minute, ThoroughCap: 40 * time.Minute,
 	})
@@ -99,7 +99,7 @@ type execResult struct {
 
 type harness struct {
 	maxBound int // 0 = the tier's bounds; otherwise the highest preemption bound explored for this (long) harness
-	name string
+	name     string
 	// setup returns the thread bodies, objects to mark shared, and a finish function evaluated after the run
 	setup func() (bodies []func(), shared []interface{}, finish func() (obs string, bad string))
 }
@@ -280,11 +280,15 @@ func collAdapters() []collAdapter {
 		}},
 		{"UserTypes", func() (interface{}, func(k, v string), func(k, v string), func(k, s string), func(k string) (string, bool), func() int, func() string, func() string) {
 			m := &catalog.UserTypes{}
-			mk := func(a string) *catalog.UserType { return &catalog.UserType{Annotation: a, Schema: catalog.NewSchema("any")} }
+			mk := func(a string) *catalog.UserType {
+				return &catalog.UserType{Annotation: a, Schema: catalog.NewSchema("any")}
+			}
 			return vsync.ID(m),
 				func(k, v string) { m.Set(k, mk(v)) },
 				func(k, v string) { m.SetToTop(k, mk(v)) },
-				func(k, s string) { m.Update(k, func(v *catalog.UserType) *catalog.UserType { return mk(v.Annotation + s) }) },
+				func(k, s string) {
+					m.Update(k, func(v *catalog.UserType) *catalog.UserType { return mk(v.Annotation + s) })
+				},
 				func(k string) (string, bool) {
 					v, ok := m.Get(k)
 					if !ok || v == nil {
@@ -306,7 +310,9 @@ func collAdapters() []collAdapter {
 			return vsync.ID(m),
 				func(k, v string) { m.Set(k, mk(v)) },
 				func(k, v string) { m.SetToTop(k, mk(v)) },
-				func(k, s string) { m.Update(k, func(v *catalog.UserRule) *catalog.UserRule { return mk(v.Annotation + s) }) },
+				func(k, s string) {
+					m.Update(k, func(v *catalog.UserRule) *catalog.UserRule { return mk(v.Annotation + s) })
+				},
 				func(k string) (string, bool) {
 					v, ok := m.Get(k)
 					if !ok || v == nil {
@@ -357,7 +363,9 @@ func collAdapters() []collAdapter {
 			return vsync.ID(m),
 				func(k, v string) { m.Set(k, mk(v)) },
 				func(k, v string) { m.SetToTop(k, mk(v)) },
-				func(k, s string) { m.Update(k, func(v *directive.Directive) *directive.Directive { return mk(v.Annotation + s) }) },
+				func(k, s string) {
+					m.Update(k, func(v *directive.Directive) *directive.Directive { return mk(v.Annotation + s) })
+				},
 				func(k string) (string, bool) {
 					v, ok := m.Get(k)
 					if !ok || v == nil {
@@ -378,9 +386,9 @@ func collAdapters() []collAdapter {
 
 type testID string
 
-func (t testID) Protocol() catalog.Protocol { return catalog.HTTP }
-func (t testID) Path() catalog.Path         { return catalog.Path("/" + string(t)) }
-func (t testID) String() string             { return string(t) }
+func (t testID) Protocol() catalog.Protocol   { return catalog.HTTP }
+func (t testID) Path() catalog.Path           { return catalog.Path("/" + string(t)) }
+func (t testID) String() string               { return string(t) }
 func (t testID) MarshalText() ([]byte, error) { return []byte(t), nil }
 
 // reference ordered map
@@ -744,7 +752,14 @@ func runC16(c *fw.Ctx) {
 			res := make([]string, n)
 			bodies := []func(){
 				func() { b, _ := cat.ToJson(); res[0] = string(b) },
-				func() { b, _ := cat.ToJsonIndent(); var v interface{}; json.Unmarshal(b, &v); c2, _ := json.Marshal(v); _ = c2; res[1] = "indent-ok" },
+				func() {
+					b, _ := cat.ToJsonIndent()
+					var v interface{}
+					json.Unmarshal(b, &v)
+					c2, _ := json.Marshal(v)
+					_ = c2
+					res[1] = "indent-ok"
+				},
 			}
 			if n == 3 {
 				bodies = append(bodies, func() {
